@@ -194,8 +194,11 @@ CHECKS["C16"] = {"pkg": "netsim", "test": "TestC16", "level": "exploration",
             "block and except, tcp/udp, every mentioned port + one other, for all flows touching a local pod. Oracle: the packet walker's "
             "verdict on the installed tables vs a reference evaluator written from the Kubernetes API documentation. A mismatch that a "
             "recorded deviation (known_findings.txt DS,DF,DM,Dcombined; DE,DA,DC,DZ are repaired and excuse nothing any more) explains is counted under that finding; any other "
-            "mismatch is a violation. evaluations = clusters; coverage.extra.flows = flows judged. Non-trivial = >=1 isolated local pod "
-            "and both ACCEPT and DROP verdicts occur.",
+            "mismatch is a violation. In half of the cases the pods then change (relabel, new address, new pod, deletion) and galaxy only "
+            "sees the pod events (no full sync): every flow is judged again - a flow allowed now must be accepted; an accepted flow must be "
+            "allowed when ipset membership is taken as the union over the states since the last full sync (the event handlers add, only a "
+            "full sync removes) and everything else from the current state. evaluations = clusters; coverage.extra.flows = flows judged. "
+            "Non-trivial = >=1 isolated local pod and both ACCEPT and DROP verdicts occur.",
     "assumptions": E3_ASSUME + ["new-connection packets on the FORWARD hook (pod-to-pod and pod-to-external traffic through this node); conntrack RELATED,ESTABLISHED never matches a first packet",
                                 "numeric ports only (named ports are documented as unsupported)"],
     "floors": {"isolated_local_pod": 0.3, "agrees_with_kubernetes_semantics": 0.2}}
